@@ -21,9 +21,14 @@ let next () = match !toks with
 let p_n () = n_of_string (next ())
 let p_z () = z_of_string (next ())
 let p_b () = bool_of_string01 (next ())
-let p_bytes () = bytes_of_hex (next ())
-let p_opt () = let t = next () in if t = "~" then None else Some (bytes_of_hex t)
-let p_list f = let c = int_of_string (next ()) in List.init c (fun _ -> f ())
+(* byte string: "-" nil, "=" empty but non-nil, else hex; element count: "0" nil,
+   "=" empty but non-nil, else n.  The model identifies nil and empty exactly where
+   the Go codec tests len(x) > 0 and keeps them apart (option) where it tests x != nil *)
+let bytes_tok t = if t = "=" || t = "-" then [] else bytes_of_hex t
+let p_bytes () = bytes_tok (next ())
+let p_opt () = let t = next () in if t = "-" then None else Some (bytes_tok t)
+let p_list f = let t = next () in
+  let c = if t = "=" then 0 else int_of_string t in List.init c (fun _ -> f ())
 let p_entry () =
   let t = p_n () in let i = p_n () in let ty = p_z () in let k = p_n () in let c = p_n () in
   let s = p_n () in let r = p_n () in let cmd = p_bytes () in
@@ -215,7 +220,7 @@ let () =
     | [id; "ENTRY"; t; i; ty; k; c; s; r; cmd] ->
       let e = { e_term = n_of_string t; e_index = n_of_string i; e_type = z_of_string ty;
                 e_key = n_of_string k; e_client = n_of_string c; e_series = n_of_string s;
-                e_responded = n_of_string r; e_cmd = bytes_of_hex cmd } in
+                e_responded = n_of_string r; e_cmd = bytes_tok cmd } in
       let enc = encode e in
       Printf.printf "%s ENC %s SIZE %s UPPER %s DEC %s\n" id (hex_of_bytes enc)
         (string_of_n (size e)) (string_of_n (size_upper_limit e)) (show_dec (decode enc))
